@@ -1936,9 +1936,9 @@ func unmarshalElement(el *etree.Element, v interface{}) error {
 }
 
 // samlAttributesOnly is an xml.TokenReader that yields the tokens of d, names already
-// translated to their namespaces, with only those attributes that are unqualified or belong
-// to the xsi or xml namespaces (xsi:type, xml:lang): no namespace declarations, and no
-// attributes of foreign namespaces.
+// translated to their namespaces, with only those attributes that are unqualified, or are
+// xsi:type or xml:lang (the two qualified attributes the schema types have fields for): no
+// namespace declarations, and no other qualified attributes.
 type samlAttributesOnly struct {
 	d *xml.Decoder
 }
@@ -1953,7 +1953,14 @@ func (r samlAttributesOnly) Token() (xml.Token, error) {
 				if attr.Name.Local == "xmlns" {
 					continue
 				}
-			case "http://www.w3.org/2001/XMLSchema-instance", "http://www.w3.org/XML/1998/namespace":
+			case "http://www.w3.org/2001/XMLSchema-instance":
+				if attr.Name.Local != "type" {
+					continue
+				}
+			case "http://www.w3.org/XML/1998/namespace":
+				if attr.Name.Local != "lang" {
+					continue
+				}
 			default:
 				continue
 			}
